@@ -178,6 +178,9 @@ def eval_int(t, env, tyhint=None):
     if op == "const" and t.a[0] == "int":
         tb = _ty_bits(t.a[2] if len(t.a) > 2 else None) or (64, True)
         return (t.a[1], tb[0], tb[1])
+    if op == "named" and len(t.a) > 2 and isinstance(t.a[2], T) and t.a[2].op == "const" and t.a[2].a[0] == "int":
+        # a named constant (`SECRET_KEY_BYTES`) with its evaluated value
+        return eval_int(t.a[2], env)
     if op == "cast":
         v, bits, signed = eval_int(t.a[1], env)
         tb = _ty_bits(t.a[2])
